@@ -734,6 +734,9 @@ def _coerce_to_pattern_ast_Dict(
             if isinstance(key, str):
                 return key
 
+            if key[0].__class__ is not MatchValue:  # BinOp BitOr coerces to a MatchOr which is not a key
+                return 'key must be a value'
+
             keys.append(key[0].value)  # we don't want the MatchValue pattern but its actual value expression (or Attribute)
 
         value = _AST_COERCE_TO_PATTERN_FUNCS.get(
